@@ -114,6 +114,10 @@ class Ctx:
             p = event.primitive
             d["prim"] = type(p).__name__
             d["result"] = getattr(p, "result", None)
+            if d["prim"] == "A_ABORT":
+                d["abort_source"] = getattr(p, "abort_source", None)
+            elif d["prim"] == "A_P_ABORT":
+                d["abort_source"] = 2
         elif name == "EVT_CONN_OPEN":
             try:
                 d["conn"] = event.assoc.dul.socket.socket._conn.cid
